@@ -3,6 +3,7 @@ CONSTANTS
   MaxLeaves = 6
   WithSubtrees = FALSE
   MaxSteps = 40
+  Mut = "none"
   FullRewindSets = FALSE
 VIEW ViewNoLen
 INVARIANT Refinement
